@@ -29,6 +29,8 @@ func ops(s ...string) []pwOp {
 			o = pwOp{Kind: "syncpool"}
 		case len(x) > 6 && x[:6] == "lsync:":
 			o = pwOp{Kind: "lsync", N: int(x[6] - '0')}
+		case len(x) > 9 && x[:9] == "hidenext:":
+			o = pwOp{Kind: "hidenext", N: int(x[9] - '0')}
 		case len(x) > 12 && x[:12] == "rremoveheld:":
 			o = pwOp{Kind: "rremoveheld", Pod: x[12:]}
 		case len(x) > 8 && x[:8] == "rremove:":
